@@ -15,7 +15,11 @@ let ev_s = function
 let op_of = function
   | "evC" -> Some (OpEvent Continue) | "evR" -> Some (OpEvent Reregister) | "evD" -> Some (OpEvent Disable)
   | "evM" -> Some (OpEvent Remove) | "rm" -> Some OpRemove | "rp" -> Some OpReplace | "reg" -> Some OpRegister
-  | "rereg" -> Some OpReregister | "unreg" -> Some OpUnregister | _ -> None
+  | "rereg" -> Some OpReregister | "unreg" -> Some OpUnregister
+  | w when String.length w = 3 && w.[0] = 'e' && (w.[2] = 'm' || w.[2] = 'p') ->
+      let a = (match w.[1] with 'C' -> Some Continue | 'R' -> Some Reregister | 'D' -> Some Disable | 'M' -> Some Remove | _ -> None) in
+      (match a with Some a -> Some (OpEventThen (a, w.[2] = 'p')) | None -> None)
+  | _ -> None
 
 let handle ws =
   match ws with
